@@ -5,6 +5,7 @@ import (
 	"go/ast"
 	"go/token"
 	"go/types"
+	"sort"
 	"strings"
 )
 
@@ -672,6 +673,34 @@ func runSessionLife(c *Ctx) {
 			li := p.LitInfo(lit)
 			lcfg := li.CFG()
 			linfo := li.Info()
+			// literals handed to Hub.Inspect: they run under the hub's lock with the session's peers as their parameter (F70)
+			inspectLits := map[*ast.FuncLit]types.Object{}
+			ast.Inspect(li.Body, func(n ast.Node) bool {
+				if call, ok := n.(*ast.CallExpr); ok && len(call.Args) == 2 {
+					if fi := p.CalleeInfo(linfo, call); fi != nil && fi.Name == "peers.(*Hub).Inspect" {
+						if fl, ok := ast.Unparen(call.Args[1]).(*ast.FuncLit); ok && fl.Type.Params != nil && len(fl.Type.Params.List) == 1 && len(fl.Type.Params.List[0].Names) == 1 {
+							inspectLits[fl] = linfo.Defs[fl.Type.Params.List[0].Names[0]]
+						}
+					}
+				}
+				return true
+			})
+			// a range over the peers of the session: hub.List(..), or the parameter of a literal handed to Hub.Inspect
+			isPeerListing := func(x ast.Expr) bool {
+				if call, ok := ast.Unparen(x).(*ast.CallExpr); ok {
+					if fi := p.CalleeInfo(linfo, call); fi != nil && fi.Name == "peers.(*Hub).List" {
+						return true
+					}
+				}
+				if o := ObjOf(linfo, x); o != nil {
+					for _, po := range inspectLits {
+						if po == o {
+							return true
+						}
+					}
+				}
+				return false
+			}
 			exitSpec := &PassSpec{Vias: []Via{
 				{Immediate: true, Call: func(f *FuncInfo, call *ast.CallExpr) (string, bool) {
 					if fi := p.CalleeInfo(f.Info(), call); fi != nil && fi.Name == "session.(*Store).Delete" {
@@ -712,16 +741,13 @@ func runSessionLife(c *Ctx) {
 			// range over hub.List(...) under `<elem>.Role == "sender"`. The session then still has its host (a reconnect
 			// replaced this socket, or this socket only claimed the role): `role == "sender" && !remains` false is settled.
 			remains := map[types.Object]bool{}
+			remainsSrc := map[types.Object]types.Object{}
 			ast.Inspect(li.Body, func(n ast.Node) bool {
 				rs, ok := n.(*ast.RangeStmt)
 				if !ok {
 					return true
 				}
-				call, ok := ast.Unparen(rs.X).(*ast.CallExpr)
-				if !ok {
-					return true
-				}
-				if fi := p.CalleeInfo(linfo, call); fi == nil || fi.Name != "peers.(*Hub).List" {
+				if !isPeerListing(rs.X) {
 					return true
 				}
 				ast.Inspect(rs.Body, func(m ast.Node) bool {
@@ -740,6 +766,7 @@ func runSessionLife(c *Ctx) {
 					for _, st := range is.Body.List {
 						if as, ok := st.(*ast.AssignStmt); ok && len(as.Lhs) == 1 && types.ExprString(as.Rhs[0]) == "true" {
 							remains[ObjOf(linfo, as.Lhs[0])] = true
+							remainsSrc[ObjOf(linfo, as.Lhs[0])] = ObjOf(linfo, rs.X) // nil for hub.List(..)
 						}
 					}
 					return true
@@ -793,11 +820,7 @@ func runSessionLife(c *Ctx) {
 				if !ok {
 					return true
 				}
-				call, ok := ast.Unparen(rs.X).(*ast.CallExpr)
-				if !ok {
-					return true
-				}
-				if fi := p.CalleeInfo(linfo, call); fi == nil || fi.Name != "peers.(*Hub).List" {
+				if !isPeerListing(rs.X) {
 					return true
 				}
 				ast.Inspect(rs.Body, func(m ast.Node) bool {
@@ -843,23 +866,117 @@ func runSessionLife(c *Ctx) {
 				return "", false
 			}}}}
 			nd, nb := 0, 0
-			lcfg.Calls(func(r NodeRef, call *ast.CallExpr) {
-				if fi := p.CalleeInfo(linfo, call); fi != nil && fi.Name == "session.(*Store).Delete" {
-					nd++
-					c.Check(gone.Passed(li, r, "no-sender-remains") && removedFirst.Passed(li, r, "own-connection-removed"), fmt.Sprintf("host-cleanup/delete-only-without-sender#%d", nd), call.Pos(),
-						"the session is deleted only when, after this connection was removed, no connection with the sender role remains",
-						"the disconnect cleanup deletes the session for whichever socket with role sender closed, without asking the hub (after removing its own connection) whether a sender-role connection remains: a host that reconnected loses its session when the old socket closes, and any peer that connects with role=sender and hangs up ends the real host's session - the join code answers 404 while the host is connected")
+			units := []*FuncInfo{li}
+			for fl := range inspectLits {
+				if ki := p.LitInfo(fl); ki != nil {
+					units = append(units, ki)
 				}
-				if fi := p.CalleeInfo(linfo, call); fi != nil && fi.Name == "peers.(*Hub).Broadcast" {
-					nb++
-					c.Check(gone.Passed(li, r, "peer-gone") && removedFirst.Passed(li, r, "own-connection-removed"), fmt.Sprintf("host-cleanup/peer-left-only-when-gone#%d", nb), call.Pos(),
-						"peer_left is announced only when no connection of that peer id remains",
-						"the disconnect cleanup announces peer_left although a (newer) connection of the same peer id may still be registered: the others drop a peer that is connected and listed")
-				}
-			})
+			}
+			sort.Slice(units, func(i, j int) bool { return units[i].Pos() < units[j].Pos() })
+			for _, li := range units {
+				lcfg := li.CFG()
+				_, underHubLock := inspectLits[li.Lit]
+				lcfg.Calls(func(r NodeRef, call *ast.CallExpr) {
+					if fi := p.CalleeInfo(linfo, call); fi != nil && fi.Name == "session.(*Store).Delete" {
+						nd++
+						// F70: decided and done in the critical section of the hub in which a joining peer's admission test runs
+						usesSnapshot := false
+						if underHubLock {
+							for _, is := range enclosingIfs(li.Body, call) {
+								ast.Inspect(is.Cond, func(x ast.Node) bool {
+									if id, ok := x.(*ast.Ident); ok {
+										if o := ObjOf(linfo, id); o != nil && remains[o] && remainsSrc[o] != nil && remainsSrc[o] == inspectLits[li.Lit] {
+											usesSnapshot = true
+										}
+									}
+									return true
+								})
+							}
+						}
+						c.Check(underHubLock && usesSnapshot, fmt.Sprintf("host-cleanup/delete-under-hub-lock#%d", nd), call.Pos(), "the session is deleted inside the literal handed to Hub.Inspect, on the peers that literal is given",
+							"the disconnect cleanup lists the peers that are left and deletes the session in separate steps (hub.List, then store.Delete): the admission test of a joining peer runs under the hub's lock and only asks whether the session exists, "+
+								"so a host that reconnects between the two steps is admitted and then sits, connected and listed, in a session whose join code no longer resolves")
+						c.Check(gone.Passed(li, r, "no-sender-remains") && removedFirst.Passed(li, r, "own-connection-removed"), fmt.Sprintf("host-cleanup/delete-only-without-sender#%d", nd), call.Pos(),
+							"the session is deleted only when, after this connection was removed, no connection with the sender role remains",
+							"the disconnect cleanup deletes the session for whichever socket with role sender closed, without asking the hub (after removing its own connection) whether a sender-role connection remains: a host that reconnected loses its session when the old socket closes, and any peer that connects with role=sender and hangs up ends the real host's session - the join code answers 404 while the host is connected")
+					}
+					if fi := p.CalleeInfo(linfo, call); fi != nil && fi.Name == "peers.(*Hub).Broadcast" {
+						nb++
+						c.Check(gone.Passed(li, r, "peer-gone") && removedFirst.Passed(li, r, "own-connection-removed"), fmt.Sprintf("host-cleanup/peer-left-only-when-gone#%d", nb), call.Pos(),
+							"peer_left is announced only when no connection of that peer id remains",
+							"the disconnect cleanup announces peer_left although a (newer) connection of the same peer id may still be registered: the others drop a peer that is connected and listed")
+					}
+				})
+			}
 			if nd == 0 {
 				c.Bad("host-cleanup/delete-only-without-sender", lit.Pos(), "the cleanup literal does not call store.Delete")
 			}
+			// Hub.Inspect runs its callback with the hub's lock held in write mode: the lock AddIf's admission test runs under (F70)
+			if len(inspectLits) > 0 {
+				if hi := p.Func("peers.(*Hub).Inspect"); hi != nil {
+					ls := NewLockSpec()
+					hinfo := hi.Info()
+					var fnParam types.Object
+					if hi.Type.Params != nil {
+						for _, fl := range hi.Type.Params.List {
+							if _, isFn := hinfo.TypeOf(fl.Type).Underlying().(*types.Signature); isFn && len(fl.Names) == 1 {
+								fnParam = hinfo.Defs[fl.Names[0]]
+							}
+						}
+					}
+					nc := 0
+					hi.CFG().Calls(func(r NodeRef, call *ast.CallExpr) {
+						if fnParam == nil || ObjOf(hinfo, call.Fun) != fnParam {
+							return
+						}
+						nc++
+						held := false
+						for _, h := range HeldAny(ls, hi, r) {
+							if strings.HasPrefix(h, "W:") && strings.HasSuffix(h, ".mu") {
+								held = true
+							}
+						}
+						c.Check(held, fmt.Sprintf("host-cleanup/inspect-holds-lock#%d", nc), call.Pos(), "Hub.Inspect calls its callback with the hub's mutex held in write mode",
+							"Hub.Inspect calls its callback without the hub's mutex held in write mode: what the callback decides about the session (no host left: delete it) is not atomic with the admission test of a joining peer, which runs under that mutex in AddIf")
+					})
+					if nc == 0 {
+						c.Bad("host-cleanup/inspect-holds-lock", hi.Pos(), "Hub.Inspect never calls its callback")
+					}
+				} else {
+					c.MissingAnchor("peers.(*Hub).Inspect")
+				}
+			}
+			// hub.Inspect(id, lit) runs lit before it returns: the call settles what every way out of lit settles
+			exitSpec.Vias = append(exitSpec.Vias, Via{Immediate: true, Call: func(f *FuncInfo, call *ast.CallExpr) (string, bool) {
+				if len(call.Args) != 2 {
+					return "", false
+				}
+				fl, ok := ast.Unparen(call.Args[1]).(*ast.FuncLit)
+				if !ok {
+					return "", false
+				}
+				if _, isInspect := inspectLits[fl]; !isInspect {
+					return "", false
+				}
+				ki := p.LitInfo(fl)
+				if ki == nil {
+					return "", false
+				}
+				kf := exitSpec.Facts(ki)
+				all, any := true, false
+				for _, b := range ki.CFG().Blocks {
+					if b.Live && len(b.Succs) == 0 {
+						any = true
+						if out := kf.AtEnd(b); out == nil || !out["pass:settled"] {
+							all = false
+						}
+					}
+				}
+				if all && any {
+					return "settled", true
+				}
+				return "", false
+			}})
 			facts := exitSpec.Facts(li)
 			ne := 0
 			for _, b := range lcfg.Blocks {
